@@ -51,3 +51,16 @@ Theorem c16_tables_are_fixpoints :
           [digraph_decls; sync_digraph_decls; ungraph_decls; sync_ungraph_decls] = true.
 Proof. exact tables_are_fixpoints. Qed.
 Print Assumptions c16_tables_are_fixpoints.
+
+(* soundness of the `unsafe impl Send/Sync` (the "Consequently ..." clause): stripped of every explicit impl, the
+   regenerated declarations yield the same (Send, Sync) by the structural rule alone, for all 64 environments *)
+Theorem c16_unsafe_impls_claim_only_what_the_fields_justify :
+  impls_justified sync_digraph_decls /\ impls_justified sync_ungraph_decls /\
+  impls_justified digraph_decls /\ impls_justified ungraph_decls.
+Proof. exact unsafe_impls_claim_only_what_the_fields_justify. Qed.
+Print Assumptions c16_unsafe_impls_claim_only_what_the_fields_justify.
+
+Theorem c16_unjustified_impl_is_rejected :
+  exact_sync rc_node_with_unsafe_impls /\ ~ impls_justified rc_node_with_unsafe_impls.
+Proof. exact unjustified_impl_is_rejected. Qed.
+Print Assumptions c16_unjustified_impl_is_rejected.
